@@ -1,10 +1,13 @@
 """C01 - readers preserve every cue's start and end instant (SRT, WebVTT, DFXP, SAMI, MicroDVD).
 
-Abstract documents (numeric stamp fields + zero padding + fraction digits; coq/spec/SpecTime.v) are rendered by the
-Coq spec renderer; the real reader (public API, Reader().read) and the extracted model (coq/model/TimeRead.v) read the
-rendered text.  Property oracle: Coq ok_times (request 105) on what the implementation returned, against
-floor(instant * 10^6) per non-empty cue computed in Q by the spec.  Correspondence: model == implementation,
-including the exception class on the malformed stream.
+Abstract documents (numeric stamp fields + zero padding + fraction digits; cues in any order; coq/spec/SpecTime.v) are
+rendered by the Coq spec renderer (SRT, WebVTT, MicroDVD: whole documents; DFXP, SAMI: the attribute strings, the document
+around them is assembled here); the real reader (public API, Reader().read, lang option varied, fresh and long-lived
+reader objects) and the extracted model (coq/model/TimeRead.v, TimeTree.v) read the text.  Property oracle: Coq ok_times /
+ok_times_alt (requests 105 / 116) on what the implementation returned, against floor(instant * 10^6) per non-empty cue
+computed in Q by the spec.  Correspondence: model == implementation on every in-domain document (failing); on the
+malformed / raw stream, strict WebVTT on unsorted cues and blank paragraphs with junk times the two are compared incl.
+the exception class but a difference is only RECORDED (the property is silent there).
 """
 import json
 from fractions import Fraction
